@@ -10,8 +10,8 @@ sys.path.insert(0, ROOT)
 import fmtlib
 
 GROUPS = {
-    "base": ["fmtcat_main", "fmtcat_c18", "fmtcat_wfmt"],
-    "syntax": ["fmtcat_main", "fmtcat_pnum", "fmtcat_grammar"],
+    "base": ["fmtcat_main", "fmtcat_c18", "fmtcat_wfmt", "fmtcat_rt"],
+    "syntax": ["fmtcat_main", "fmtcat_pnum", "fmtcat_grammar", "fmtcat_intfmt"],
     "total": ["fmtcat_pnum", "fmtcat_total", "fmtcat_dbg", "fmtcat_c18"],
     "sep": ["fmtcat_sep"],
 }
